@@ -16,11 +16,20 @@ import (
 	"fmt"
 	"io"
 	"math"
+	"os"
 	"regexp"
 	"sort"
 	"strings"
 	"time"
 
+	tmdb "github.com/cometbft/cometbft-db"
+	"github.com/cometbft/cometbft/libs/log"
+	tmproto "github.com/cometbft/cometbft/proto/tendermint/types"
+	"github.com/cosmos/cosmos-sdk/codec"
+	codectypes "github.com/cosmos/cosmos-sdk/codec/types"
+	"github.com/cosmos/cosmos-sdk/store/cachekv"
+	"github.com/cosmos/cosmos-sdk/store/cachemulti"
+	storetypes "github.com/cosmos/cosmos-sdk/store/types"
 	sdk "github.com/cosmos/cosmos-sdk/types"
 	"github.com/lavanet/lava/v5/utils"
 	fixtypes "github.com/lavanet/lava/v5/x/fixationstore/types"
@@ -266,10 +275,10 @@ func coin(d int64) *sdk.Coin {
 	return &c
 }
 
-func newScen(stale uint64, rich bool) *scen {
+func newScen(stale uint64, rich bool, nIdx int) *scen {
 	utils.SetGlobalLoggingLevel("fatal")
 	zerologlog.Logger = zerolog.New(io.Discard).Level(zerolog.FatalLevel) // panics keep their message, nothing is printed
-	s := &scen{stale: stale, indices: []string{"a", "ab"}}
+	s := &scen{stale: stale, indices: []string{"a", "ab"}[:nIdx]}
 	for i, n := range s.indices {
 		add := func(name string, kind int, d uint64) {
 			s.ops = append(s.ops, opdef{fmt.Sprintf("%s(%s)", name, n), kind, i, d})
@@ -298,13 +307,57 @@ func newScen(stale uint64, rich bool) *scen {
 	for _, o := range s.ops {
 		s.names = append(s.names, o.name)
 	}
-	ctx, key, cdc := memctx.New("mock")
+	ctx, key, cdc := newCtx()
 	s.ts = timertypes.NewTimerStore(key, cdc, "verif_fix")
 	s.fs = fixtypes.NewFixationStore(key, cdc, "verif_fix", s.ts, func(sdk.Context) uint64 { return stale })
 	s.fs.Init(ctx, *fixtypes.DefaultGenesis())
 	s.base = ctx
 	return s
 }
+
+// newCtx builds a bare context like memctx.New, but the (never written, always empty) bottom layer is
+// a trivial empty KV store instead of IAVL-over-MemDB: all data lives in the SDK cachekv layers above
+// it (the base context's cache layer is never flushed). The code under test only needs KVStore
+// semantics; opening an iterator on the IAVL/MemDB bottom layer costs ~20x more than everything else.
+func newCtx() (sdk.Context, storetypes.StoreKey, codec.BinaryCodec) {
+	if os.Getenv("C14_IAVL") != "" {
+		return memctx.New("mock")
+	}
+	key := sdk.NewKVStoreKey("mock")
+	ms := cachemulti.NewStore(tmdb.NewMemDB(), map[storetypes.StoreKey]storetypes.CacheWrapper{key: emptyStore{}},
+		map[string]storetypes.StoreKey{"mock": key}, nil, nil)
+	cdc := codec.NewProtoCodec(codectypes.NewInterfaceRegistry())
+	ctx := sdk.NewContext(ms, tmproto.Header{Height: 10, Time: memctx.BaseTime}, false, log.NewNopLogger())
+	return ctx, key, cdc
+}
+
+type emptyStore struct{}
+
+func (emptyStore) GetStoreType() storetypes.StoreType { return storetypes.StoreTypeDB }
+func (e emptyStore) CacheWrap() storetypes.CacheWrap  { return cachekv.NewStore(e) }
+func (e emptyStore) CacheWrapWithTrace(io.Writer, storetypes.TraceContext) storetypes.CacheWrap {
+	return cachekv.NewStore(e)
+}
+func (emptyStore) Get([]byte) []byte { return nil }
+func (emptyStore) Has([]byte) bool   { return false }
+func (emptyStore) Set(k, v []byte)   { panic("c14: the bottom store is read-only") }
+func (emptyStore) Delete(k []byte)   { panic("c14: the bottom store is read-only") }
+func (emptyStore) Iterator(start, end []byte) storetypes.Iterator {
+	return emptyIter{start, end}
+}
+func (emptyStore) ReverseIterator(start, end []byte) storetypes.Iterator {
+	return emptyIter{start, end}
+}
+
+type emptyIter struct{ start, end []byte }
+
+func (i emptyIter) Domain() ([]byte, []byte) { return i.start, i.end }
+func (emptyIter) Valid() bool                { return false }
+func (emptyIter) Next()                      { panic("c14: Next on an empty iterator") }
+func (emptyIter) Key() []byte                { panic("c14: Key on an empty iterator") }
+func (emptyIter) Value() []byte              { panic("c14: Value on an empty iterator") }
+func (emptyIter) Error() error               { return nil }
+func (emptyIter) Close() error               { return nil }
 
 func (s *scen) Ops() []string { return s.names }
 
@@ -646,24 +699,40 @@ func (s *scen) compareLookups() (out []ev.Violation) {
 	for i, name := range s.indices {
 		x := &m.idx[i]
 		real := s.fs.GetAllEntryVersions(s.ctx, name)
-		lo := now
-		for _, v := range x.vers {
-			if v.block < lo {
-				lo = v.block
+		// FindEntry is piecewise constant in the block argument; probe both sides of every possible
+		// breakpoint (version blocks of the model and of the store, delete blocks) and the near future
+		probe := map[uint64]bool{now: true, now + 1: true, now + 2: true}
+		around := func(b uint64) {
+			if b != none {
+				probe[b] = true
+				if b > 0 {
+					probe[b-1] = true
+				}
 			}
+		}
+		for _, v := range x.vers {
+			around(v.block)
+			around(v.delAt)
 		}
 		for _, b := range real {
-			if b < lo {
-				lo = b
-			}
+			around(b)
 		}
-		if lo > 0 {
-			lo--
+		around(x.pendingDel)
+		if x.pendingDel != none {
+			probe[x.pendingDel+1] = true
 		}
-		for b := lo; b <= now+3; b++ {
+		blocks := make([]uint64, 0, len(probe))
+		for b := range probe {
+			blocks = append(blocks, b)
+		}
+		sort.Slice(blocks, func(i, j int) bool { return blocks[i] < blocks[j] })
+		for _, b := range blocks {
 			var got sdk.Coin
 			blk, _, _, found := s.fs.FindEntryDetailed(s.ctx, name, b, &got)
-			found2 := s.fs.FindEntry(s.ctx, name, b, &got)
+			found2 := found
+			if b == now {
+				found2 = s.fs.FindEntry(s.ctx, name, b, &got)
+			}
 			wf, wb, wd := m.find(i, b)
 			if found != wf || found2 != wf || (found && (blk != wb || got.Amount.Int64() != wd)) {
 				key := "find-mismatch"
@@ -760,17 +829,25 @@ func (s *scen) Hash() []byte {
 }
 
 func init() {
-	bfs.Register("c14/stale2", func() bfs.Scenario { return newScen(2, false) })
-	bfs.Register("c14/stale3rich", func() bfs.Scenario { return newScen(3, true) })
+	bfs.Register("c14/one-stale2", func() bfs.Scenario { return newScen(2, false, 1) })
+	bfs.Register("c14/one-stale3-rich", func() bfs.Scenario { return newScen(3, true, 1) })
+	bfs.Register("c14/two-stale2", func() bfs.Scenario { return newScen(2, false, 2) })
 	reg.Register(reg.Check{Property: "C14", Level: "model_checking", Run: func(run *ev.Run) {
 		type job struct {
 			name  string
 			depth int
 			dl    time.Duration
 		}
-		jobs := []job{{"c14/stale2", 6, 80 * time.Second}}
+		jobs := []job{{"c14/one-stale2", 8, 35 * time.Second}, {"c14/two-stale2", 6, 30 * time.Second}, {"c14/one-stale3-rich", 6, 15 * time.Second}}
 		if ev.Tier() == "thorough" {
-			jobs = []job{{"c14/stale2", 8, 9 * time.Minute}, {"c14/stale3rich", 7, 6 * time.Minute}}
+			jobs = []job{{"c14/one-stale2", 11, 5 * time.Minute}, {"c14/one-stale3-rich", 10, 4 * time.Minute}, {"c14/two-stale2", 7, 5 * time.Minute}}
+		}
+		if d := os.Getenv("C14_JOB"); d != "" { // development: C14_JOB=scenario:depth
+			var n string
+			var depth int
+			if _, err := fmt.Sscanf(strings.Replace(d, ":", " ", 1), "%s %d", &n, &depth); err == nil {
+				jobs = []job{{n, depth, 30 * time.Minute}}
+			}
 		}
 		exh := true
 		var bounds []string
@@ -782,9 +859,10 @@ func init() {
 			bounds = append(bounds, fmt.Sprintf("%s: all legal op sequences up to depth %d over %d ops", j.name, j.depth, len(bfs.Make(j.name).Ops())))
 		}
 		run.Set("exhaustive", exh)
-		run.Set("bound", strings.Join(bounds, "; ")+"; 2 indices (a, ab), <=4 versions per index, <=2 outstanding Get references per version, append/delete at now..now+2, every block ticked")
+		run.Set("bound", strings.Join(bounds, "; ")+"; indices a (and ab), <=4 versions per index, <=2 outstanding Get references per version, append/delete at now..now+2, stale period 2 (3 in the rich scenario), every block ticked")
 		run.Assume("fixation store behaviour is translation invariant in the block height (it only compares blocks with each other and with the current height); states are merged modulo translation")
 		run.Assume("where the contract is silent (AppendEntry on/after a pending delete, DelEntry with nothing live or with a delete already pending) the implementation's refusal is accepted, but a refused call must change no lookup")
 		run.Assume("AppendEntry on the very block of a deleted version that still has Get references is treated as unspecified and not issued")
+		run.Assume("the KV substrate is the SDK cachekv store over an always-empty bottom layer (no IAVL); only KVStore semantics matter to the fixation and timer stores")
 	}})
 }
